@@ -446,7 +446,7 @@ fn gen_sheet(rng: &mut Rng, w: usize, headers: Option<&[String]>, pad: bool) -> 
             let v = if r == 0 && headers.is_some() {
                 let name = &headers.unwrap()[c];
                 if pad && rng.chance(1, 3) {
-                    Data::String(format!("{}{}{}", ["", " ", "  "][rng.usize(3)], name, [" ", "\t", " \n"][rng.usize(3)]))
+                    Data::String(format!("{}{}{}", ["", " ", "  ", "\u{a0}", "\u{3000} "][rng.usize(5)], name, [" ", "\t", " \n", "\u{2003}", "\u{b}\u{a0}"][rng.usize(5)]))
                 } else {
                     Data::String(name.clone())
                 }
